@@ -23,6 +23,8 @@ type c04Task struct {
 	Seen    string `json:"seen"`     // none | all | alt : which relevant txs were delivered unconfirmed before
 	Corrupt string `json:"corrupt"`  // "" | drop:i | insert:i | swap:i:j | alter:i
 	Syncing bool   `json:"syncing"`  // corrupted block served during the initial sync (node not in sync yet)
+	Reorg   bool   `json:"reorg,omitempty"` // after the block was processed a competing block at the same height with the same txs in another order wins
+	Crash   int    `json:"crash,omitempty"` // >0: the block is part of the initial sync and the process dies after the (Crash-1)-th storage mutation, then restarts
 	Direct  bool   `json:"direct"`   // corrupted block handed straight to the exported Node.ProcessBlock of a loaded, not yet running node
 }
 
@@ -106,6 +108,88 @@ func c04Syncing(t c04Task) c04Result {
 	return res
 }
 
+// c04CrashRun: the block (height 4) is part of the peer's chain before the node starts; the node
+// syncs it, dies after storage mutation idx (idx < 0: no crash, just count), restarts on what
+// survived and syncs again. Every notification of the whole run - before and after the crash - must
+// carry a proof for the header the node holds at that moment.
+func c04CrashRun(t c04Task, idx int) (res c04Result, mutations int) {
+	w := NewWorld(WorldCfg{InitialChain: 3, StartHeight: 2, SafeDelayMS: 2000, RemoveMissing: true})
+	w.cfg.Subscribe = [][]byte{subKey[:]}
+	w.hist = []string{fmt.Sprintf("%+v crash after mutation %d", t, idx)}
+	var txs []*wire.MsgTx
+	var names []string
+	for i := 1; i < t.N; i++ {
+		tx := c04Tx(i, t.RelMask&(1<<uint(i)) != 0)
+		name := fmt.Sprintf("x%d", i)
+		w.Txs[name], w.TxNames[*tx.TxHash()] = tx, name
+		w.txOrder = append(w.txOrder, name)
+		txs, names = append(txs, tx), append(names, name)
+	}
+	b := w.Tree.mine(w.Best[len(w.Best)-1], txs, names)
+	w.Best = append(w.Best, b.name)
+	b2 := w.Tree.mine(b.name, nil, nil)
+	w.Best = append(w.Best, b2.name)
+	w.baseStore = w.Store.Clone()
+	w.StartNode()
+	w.settle()
+	w.settleMacro()
+	mutations = len(w.Store.Log)
+	if idx >= 0 && idx <= mutations {
+		img := core.ImageAt(w.baseStore, w.Store.Log, idx)
+		img.RemoveMissingErr = w.Store.RemoveMissingErr
+		w.S.KillAll(true)
+		w.P = nil
+		w.Store = img
+		w.StartNode()
+		w.settle()
+		w.settleMacro()
+		if ok, why := w.Converged(); !ok {
+			w.fail("C04", "resyncs-after-crash", "node restarted on the crash image does not reach the peer's tip", why)
+		}
+	}
+	w.PanicViolations("C04")
+	w.oracleFlags(false)
+	tr := w.tracks(0)
+	for i, n := range names {
+		if t.RelMask&(1<<uint(i+1)) == 0 {
+			if tr[n] != nil {
+				w.fail("C04", "only-relevant", "irrelevant block tx notified", n)
+			}
+			continue
+		}
+		if k := tr[n]; k == nil || k.states[len(k.states)-1].MerkleProof == nil {
+			w.fail("C04", "confirmation-notified", fmt.Sprintf("relevant tx at index %d of %d never notified with a proof (block synced, crash, synced again)", i+1, t.N), n)
+		}
+	}
+	res.Outcome = fmt.Sprintf("n=%d crash-resync", t.N)
+	for i := range w.viol {
+		w.viol[i].Witness = map[string]interface{}{"task": c04Task{N: t.N, RelMask: t.RelMask, Crash: idx + 1}}
+	}
+	for _, v := range w.viol {
+		if v.Property == "C04" || v.Clause == "panic" {
+			v.Property = "C04"
+			res.Violations = append(res.Violations, v)
+		}
+	}
+	w.Close()
+	return
+}
+
+// c04Crash: every crash point of the sync of that block (task.Crash == -1), or one of them.
+func c04Crash(t c04Task) c04Result {
+	if t.Crash > 0 {
+		r, _ := c04CrashRun(t, t.Crash-1)
+		return r
+	}
+	res, n := c04CrashRun(t, -1)
+	for i := 0; i <= n && len(res.Violations) == 0; i++ {
+		r, _ := c04CrashRun(t, i)
+		res.Violations = append(res.Violations, r.Violations...)
+	}
+	res.Outcome = fmt.Sprintf("n=%d crash-resync (%d crash points)", t.N, n+1)
+	return res
+}
+
 // c04Direct: the block processing entry point itself (exported Node.ProcessBlock) on a loaded node
 // that is not in sync: a corrupted body must not extend the chain or notify anything.
 func c04Direct(t c04Task) c04Result {
@@ -160,6 +244,9 @@ func c04Direct(t c04Task) c04Result {
 func c04Exec(t c04Task) c04Result {
 	if t.Direct {
 		return c04Direct(t)
+	}
+	if t.Crash != 0 {
+		return c04Crash(t)
 	}
 	if t.Syncing {
 		return c04Syncing(t)
@@ -239,6 +326,45 @@ func c04Exec(t c04Task) c04Result {
 			}
 		}
 		res.Outcome = fmt.Sprintf("n=%d relevant=%d seen=%s", t.N, seenCount, t.Seen)
+		if t.Reorg && len(w.viol) == 0 {
+			// The peer reorganises one block deep: the competing block holds one more tx in front and
+			// the same txs rotated by one, so every index and most paths differ; a child makes it win.
+			extra := c04Tx(40, false)
+			w.Txs["xx"], w.TxNames[*extra.TxHash()] = extra, "xx"
+			w.txOrder = append(w.txOrder, "xx")
+			rtxs, rnames := []*wire.MsgTx{extra}, []string{"xx"}
+			for i := range txs {
+				j := (i + 1) % len(txs)
+				rtxs, rnames = append(rtxs, txs[j]), append(rnames, names[j])
+			}
+			w.Abandoned = append([]string(nil), w.Best...)
+			w.Best = append([]string(nil), w.Best[:len(w.Best)-1]...)
+			b2 := w.Tree.mine(w.Best[len(w.Best)-1], rtxs, rnames)
+			w.Best = append(w.Best, b2.name)
+			b3 := w.Tree.mine(b2.name, nil, nil)
+			w.Best = append(w.Best, b3.name)
+			w.everReorged, w.lastUnsync = true, w.S.Now
+			w.Announce(w.P)
+			w.settle()
+			w.settleMacro()
+			w.PanicViolations("C04")
+			w.oracleFlags(false)
+			if ok, why := w.Converged(); !ok {
+				w.fail("C04", "reorg-followed", "node did not follow the one-block reorganisation", why)
+			}
+			tr := w.tracks(0)
+			for i, n := range names {
+				if t.RelMask&(1<<uint(i+1)) == 0 || len(w.viol) > 0 {
+					continue
+				}
+				k := tr[n]
+				last := k.states[len(k.states)-1]
+				if last.MerkleProof == nil || *last.MerkleProof.BlockHeader.BlockHash() != b2.hash {
+					w.fail("C04", "reconfirmation-carries-new-proof", "tx confirmed again on the winning branch not notified with a proof for the new block", fmt.Sprintf("%s: last notification has proof %v", n, last.MerkleProof != nil))
+				}
+			}
+			res.Outcome += " reorg"
+		}
 	} else {
 		// corrupted body under the unchanged header
 		bad := corruptBlock(b.msg, t.Corrupt)
@@ -350,9 +476,9 @@ func init() {
 func runC04() int {
 	rep := core.NewReport("C04", "model_checking")
 	pool := core.NewPool()
-	maxN, fullN, corrN := 9, 6, 5
+	maxN, fullN, corrN, reorgN, crashN := 9, 6, 5, 5, 4
 	if rep.Thorough() {
-		maxN, fullN, corrN = 17, 8, 7
+		maxN, fullN, corrN, reorgN, crashN = 17, 8, 7, 8, 6
 	}
 	var tasks []interface{}
 	var meta []c04Task
@@ -378,6 +504,12 @@ func runC04() int {
 					continue
 				}
 				add(c04Task{N: n, RelMask: m, Seen: seen})
+				if seen == "none" && m&(m-1) != 0 && n <= crashN { // at least two relevant txs
+					add(c04Task{N: n, RelMask: m, Crash: -1})
+				}
+				if m != 0 && n <= reorgN && n >= 3 {
+					add(c04Task{N: n, RelMask: m, Seen: seen, Reorg: true})
+				}
 			}
 		}
 		if n >= 2 && n <= corrN {
@@ -423,7 +555,7 @@ func runC04() int {
 	rep.Coverage["traces_validated_against_impl"] = execs
 	rep.Coverage["evaluations"] = execs
 	rep.Coverage["distinct_nontrivial"] = len(rep.Outcomes)
-	rep.Coverage["rule"] = fmt.Sprintf("bounded-exhaustive enumeration through the real path (in-sync Node.Run, peer announces and serves one block): block sizes 1..%d, every subset of relevant positions for n<=%d and all singletons/pairs above, relevant txs previously delivered (all / none / alternating); corrupted bodies (drop i, insert at i, swap i/j, alter i) under an unchanged header for n<=%d, served while in sync, during the initial sync, and handed directly to Node.ProcessBlock of a loaded node, only where the independently computed root differs from the header. Oracle: independent merkle path verifier against the header at that height, true index, depth 0, new vs update kind; corrupted: height unchanged, nothing delivered.", maxN, fullN, corrN)
+	rep.Coverage["rule"] = fmt.Sprintf("bounded-exhaustive enumeration through the real path (in-sync Node.Run, peer announces and serves one block): block sizes 1..%d, every subset of relevant positions for n<=%d and all singletons/pairs above, relevant txs previously delivered (all / none / alternating); corrupted bodies (drop i, insert at i, swap i/j, alter i) under an unchanged header for n<=%d, served while in sync, during the initial sync, and handed directly to Node.ProcessBlock of a loaded node, only where the independently computed root differs from the header. For n<=%d with two or more relevant txs the block is part of the initial sync and the process dies after every single storage mutation of that sync, restarts on the surviving storage and syncs again (every notification before and after must carry a proof for the held header). For n<=%d additionally a one-block reorganisation after the block was processed: the winning block holds the same txs rotated plus one more, and the re-confirmation must carry a proof for the winning block. Oracle: at the moment of every notification the node holds the proof's header at that height; independent merkle path verifier against the header at that height, true index, depth 0, new vs update kind; corrupted: height unchanged, nothing delivered.", maxN, fullN, corrN, crashN, reorgN)
 	rep.Assumptions = append(peerAssumption, "duplicate-tail merkle malleability (corruptions that keep the root) is not asserted")
 	return rep.Finish()
 }
